@@ -54,6 +54,8 @@ type BedOpts struct {
 	ClientAddrHeader string
 	Env              map[string]string
 	LogLevel         string
+	LogQueries       bool   // log.queries: every query (with the text form of its name) goes to the log
+	RegexpRule       string // when set: a domain set with this regexp entry decides the first rule (REFUSED when it matches)
 	VerifyClientCert bool
 	NoClientCA       bool // with VerifyClientCert: no tls.ca configured (system roots decide)
 	UdpRcvBuf        int
@@ -243,7 +245,15 @@ func newBedOnce(c *Ctx, name string, o BedOpts) (*Bed, error) {
 		os.WriteFile(fp, []byte("domain:"+tag+".test\n"), 0644)
 		fmt.Fprintf(&y, "  - tag: set_%s\n    files: [\"%s\"]\n", tag, fp)
 	}
+	if o.RegexpRule != "" {
+		fp := filepath.Join(b.Dir, "set_regexp.txt")
+		os.WriteFile(fp, []byte("regexp:"+o.RegexpRule+"\n"), 0644)
+		fmt.Fprintf(&y, "  - tag: set_regexp\n    files: [\"%s\"]\n", fp)
+	}
 	y.WriteString("rules:\n")
+	if o.RegexpRule != "" {
+		y.WriteString("  - domain: set_regexp\n    reject: 5\n")
+	}
 	for _, tag := range o.Upstreams {
 		fmt.Fprintf(&y, "  - domain: set_%s\n    forward: %s\n", tag, tag)
 	}
@@ -316,6 +326,9 @@ func newBedOnce(c *Ctx, name string, o BedOpts) (*Bed, error) {
 	}
 	if o.ECS {
 		y.WriteString("ecs:\n  enabled: true\n")
+	}
+	if o.LogQueries {
+		y.WriteString("log:\n  queries: true\n")
 	}
 	if o.Limiter != "" {
 		y.WriteString("limiter:\n" + o.Limiter)
